@@ -158,6 +158,21 @@ def check_owner(sm, label):
     return None
 
 
+def check_innermost(sm, label):
+    """each indexed file is an item of the INNERMOST shared directory that contains it (also right after a directory was added or removed,
+    before the next scan)"""
+    dirs = list(sm.shared_directories)
+    for d in dirs:
+        for it in d.items:
+            p = it.get_absolute_path()
+            inner = [o for o in dirs if o is not d and o.absolute_path.startswith(d.absolute_path.rstrip(os.sep) + os.sep)
+                     and p.startswith(o.absolute_path.rstrip(os.sep) + os.sep)]
+            if inner:
+                return (f'{label}: {p} is an item of the shared directory {d.absolute_path} although the nested shared directory '
+                        f'{inner[0].absolute_path} contains it')
+    return None
+
+
 def check_queries(sm, rnd, label, cap=None):
     live = [it for d in sm.shared_directories for it in d.items]
     names = [it.get_query_path() for it in live] or ['song one']
@@ -209,7 +224,7 @@ async def nested_three_levels():
             added = {}
             for d in order:
                 added[d] = sm.add_shared_directory(os.path.join(tmp, d))
-                why = check_owner(sm, f'nested add {d} (order {order})')
+                why = check_owner(sm, f'nested add {d} (order {order})') or check_innermost(sm, f'nested add {d}, before the scan (order {order})')
                 if why:
                     return why
                 await sm.scan()
@@ -218,7 +233,8 @@ async def nested_three_levels():
                     return why
             for d in order:
                 sm.remove_shared_directory(added[d])
-                why = check_owner(sm, f'nested remove {d} (order {order})') or check_index_subset(sm, f'nested remove {d} (order {order})')
+                why = check_owner(sm, f'nested remove {d} (order {order})') or check_index_subset(sm, f'nested remove {d} (order {order})') \
+                    or check_innermost(sm, f'nested remove {d} (order {order})')
                 if why:
                     return why
     return None
